@@ -468,37 +468,55 @@ def check_enforcement(ck, R):
     # the names of the temporaries do not matter
     FRAME = "CallStack.get().get_calling_frame()"
     CALLER = FRAME + ".memento.invocation_metadata.fn_reference_with_args.fn_reference.memento_fn"
-    rets = v.returns()
-    allowed = {FRAME + " is None", CALLER + ".explicit_version is not None"}
-    tests = [v.xnorm(v.enclosing(r, ast.If).test) if v.enclosing(r, ast.If) is not None else "<unconditional>" for r in rets]
-    ok = set(tests) <= allowed
-    ck.ob(R, v.key(None, "early-exits"), ok, "validation is skipped only without a caller or for an explicitly versioned caller" if ok else
-          "validation has an additional early exit: %s" % sorted(set(tests) - allowed), v.where())
+    # decided on PATH CONDITIONS (FA.conditions): the literals under which the raise is reached, with locals
+    # expanded and negations / nesting / guard-clause style normalised away
     rs = [r for r in v.stmts(ast.Raise) if isinstance(r.exc, ast.Call) and A.call_attr(r.exc) == "UndeclaredDependencyError"]
     okr = len(rs) == 1
     valid = None
-    if okr:
+    conds = v.conditions(rs[0]) if okr else None
+    extra = []
+    if okr and conds is not None and len(conds) == 1:
+        lits = set(next(iter(conds)))
+        want = {(FRAME + " is None", False), (CALLER + ".explicit_version is None", True)}
+        same = sorted([CALLER + ".qualified_name_without_version", "self.qualified_name_without_version"])
+        want.add(("%s == %s" % (same[0], same[1]), False))
+        memb = [l for l in lits if l[0].startswith("self.fn_reference().qualified_name in ") and l[1] is False]
+        okr = want <= lits and len(memb) == 1
+        if memb:
+            valid = memb[0][0].split(" in ", 1)[1]
+        extra = sorted(lits - want - set(memb))
+        okr = okr and not extra
+    else:
+        okr = False
+    ck.ob(R, v.key(None, "raises-when-outside"), okr, "a callee outside the caller's closure (and not the caller itself) is refused, whenever there is an automatically versioned caller" if okr else
+          "the undeclared-dependency error is not raised exactly when there is a caller without a declared version, the callee is not the caller itself and is outside "
+          "the valid set%s" % ((": additional condition(s) %s" % extra) if extra else ""), v.where(rs[0]) if rs else v.where())
+    okv = False
+    oka = True
+    foreign = []
+    if valid is not None and rs:
         g = v.enclosing(rs[0], ast.If)
-        okr = g is not None and isinstance(g.test, ast.BoolOp) and isinstance(g.test.op, ast.And) and len(g.test.values) == 2
-        if okr:
-            atoms = {v.xnorm(a, v.nodes(g.test)[0]) for a in g.test.values}
-            memb = [a for a in g.test.values if isinstance(a, ast.Compare) and len(a.ops) == 1 and isinstance(a.ops[0], ast.NotIn)
-                    and v.xnorm(a.left, v.nodes(g.test)[0]) == "self.fn_reference().qualified_name" and isinstance(a.comparators[0], ast.Name)]
-            okr = len(memb) == 1 and (CALLER + ".qualified_name_without_version != self.qualified_name_without_version") in atoms
-            if memb:
-                valid = memb[0].comparators[0].id
-    ck.ob(R, v.key(None, "raises-when-outside"), okr, "a callee outside the caller's closure (and not the caller itself) is refused" if okr else
-          "the undeclared-dependency error is not raised exactly when the callee is outside the valid set and is not the caller itself", v.where())
-    vf = [s for s in v.stmts(ast.Assign) if valid is not None and any(isinstance(t, ast.Name) and t.id == valid for t in s.targets)]
-    okv = len(vf) == 1 and "call:transitive_memento_fn_dependencies" in v.deps(vf[0].value) and "call:dependencies" in v.deps(vf[0].value) and \
-        any(d.endswith("memento_fn") and d.startswith(("attr:", "getattr:")) for d in v.deps(vf[0].value))
-    ck.ob(R, v.key(vf[0] if vf else None, "closure-source"), okv, "valid callees = the caller's transitive memento dependencies" if okv else
+        dv = set()
+        for n in v.cfg.nodes:
+            if n.kind != "test":
+                continue
+            for x in ast.walk(n.ast):
+                if isinstance(x, ast.Compare) and len(x.ops) == 1 and isinstance(x.ops[0], (ast.In, ast.NotIn)) \
+                        and v.xnorm(x.left, n.id) == "self.fn_reference().qualified_name":
+                    dv |= v.df.deps(x.comparators[0], n.id)
+        okv = "call:transitive_memento_fn_dependencies" in dv and "call:dependencies" in dv and \
+            any(d.endswith("memento_fn") and d.startswith(("attr:", "getattr:")) for d in dv)
+        # what else may flow into the valid set: function references found among the caller's own arguments
+        foreign = sorted(d for d in dv if d.startswith("call:") and d[5:] not in (
+            "transitive_memento_fn_dependencies", "dependencies", "fn_reference", "_extract_fn_ref_args", "get_calling_frame", "get", "cast", "set", "isinstance",
+            "values", "union", "add", "update", "items", "list", "tuple") and not d[5:].startswith("_") and d[5:] not in v.fi.nested)
+        oka = not foreign
+        del g
+    ck.ob(R, v.key(None, "closure-source"), okv, "valid callees = the caller's transitive memento dependencies" if okv else
           "the set of valid callees is not built from the calling function's transitive memento dependencies", v.where())
-    aug = [s for s in v.stmts(ast.AugAssign) if valid is not None and A.norm(s.target) == valid]
-    oka = len(aug) <= 1 and all(v.xnorm(s.value).startswith("self._extract_fn_ref_args(") for s in aug)
     ck.ob(R, v.key(None, "only-arguments-added"), oka, "only function references passed as arguments extend the closure" if oka else
-          "the valid set is extended by something other than function-reference arguments", v.where())
-    okf = any(FRAME in t for t in tests) and okr
+          "the valid set is extended by something other than function-reference arguments (%s)" % foreign if valid is not None and rs else "the valid set could not be identified", v.where())
+    okf = okr
     ck.ob(R, v.key(None, "caller-from-stack"), okf, "the caller is the top frame of this thread's call stack" if okf else
           "the caller is not taken from CallStack.get().get_calling_frame()", v.where())
 
